@@ -8,6 +8,9 @@ from bv.common import Property, Failure, time_limit, exc_name
 THRESHOLDS = [1 / n for n in range(2, 13)] + [0.3, 0.7, 0.999, 0.0625, 0.04, 1 / 24, 0.021, 0.51]
 
 
+MAPPING_KINDS = ('m', 'kw', 'mkw', 'mp', 'ud', 'cm', 'tc')
+
+
 def key(k):
     return 'k%d' % k
 
@@ -64,7 +67,7 @@ class C20(Property):
                 ops.append([rng.choice(['u', 'ug', 'ut']), [pick() for _ in range(rng.randint(0, 6))]])
             elif r < 0.85:
                 ks = rng.sample(range(nk), rng.randint(0, min(nk, 3)))
-                ops.append([rng.choice(['m', 'kw', 'mkw']), [[k, rng.randint(0, 4)] for k in ks]])
+                ops.append([rng.choice(['m', 'kw', 'mkw', 'mp', 'ud', 'cm', 'tc']), [[k, rng.randint(0, 4)] for k in ks]])
             else:
                 ops.append(['q', rng.choice([-1, 0, 1, 2, 3, 50])])
         return {'th': th, 'nk': nk, 'ops': ops}
@@ -98,7 +101,10 @@ class C20(Property):
                 toks.append('a%d' % op[1])
             elif op[0] in ('u', 'ug', 'ut'):
                 toks.append('u' + (','.join(map(str, op[1])) or '-'))
-            elif op[0] in ('m', 'kw', 'mkw'):
+            elif op[0] == 'cm':     # ChainMap iterates its LAST map first
+                half = len(op[1]) // 2
+                toks.append('m' + (','.join('%d:%d' % (k, c) for k, c in op[1][half:] + op[1][:half]) or '-'))
+            elif op[0] in MAPPING_KINDS:
                 toks.append('m' + (','.join('%d:%d' % (k, c) for k, c in op[1]) or '-'))
             elif op[0] == 'q':
                 toks.append('q%d' % op[1])
@@ -128,6 +134,20 @@ class C20(Property):
                     elif kind == 'mkw':
                         half = len(op[1]) // 2
                         tc.update({key(k): c for k, c in op[1][:half]}, **{key(k): c for k, c in op[1][half:]})
+                    elif kind == 'mp':      # read-only mapping proxy (a Mapping that is not a dict)
+                        import types
+                        tc.update(types.MappingProxyType({key(k): c for k, c in op[1]}))
+                    elif kind == 'ud':
+                        import collections
+                        tc.update(collections.UserDict({key(k): c for k, c in op[1]}))
+                    elif kind == 'cm':
+                        import collections
+                        half = len(op[1]) // 2
+                        tc.update(collections.ChainMap({key(k): c for k, c in op[1][:half]},
+                                                       {key(k): c for k, c in op[1][half:]}))
+                    elif kind == 'tc':      # another counter-like object exposing items()
+                        import collections
+                        tc.update(collections.Counter({key(k): c for k, c in op[1]}))
                     elif kind == 'q':
                         out.append({'q': [list(p) for p in tc.most_common(op[1])]})
                         continue
